@@ -62,6 +62,28 @@ func isFlagSet(name string) bool {
 	return set
 }
 
+// Ghoster is implemented by runners whose operations may also be executed on a context that is thrown
+// away (what a simulation, a CheckTx or a node one block behind does): the line `<module> ghost <op…>`
+// runs the operation on a cache context that is never written; its observation is `ghost` followed by
+// the canonical state of the real context, which has to be what it was. Process-local state that such
+// an execution leaves behind (caches, registries) is what these lines are after.
+type Ghoster interface {
+	Stater
+	GhostChance() (num, den int)
+}
+
+// ghost executes a `<module> ghost <op…>` line.
+func ghost(rn Runner, ctx sdk.Context, l string) string {
+	f := strings.Fields(l)
+	st, ok := rn.(Stater)
+	if !ok || len(f) < 3 {
+		Fail("ghost line for a runner without State: %q", l)
+	}
+	gctx, _ := ctx.CacheContext()
+	rn.Exec(gctx, f[0]+" "+strings.Join(f[2:], " "))
+	return "ghost " + st.State(ctx)
+}
+
 // RunHistories generates and executes histories, or replays a file.
 func RunHistories(env *Env, rn Runner, o Opts) {
 	out := NewOut(o.Out)
@@ -73,6 +95,8 @@ func RunHistories(env *Env, rn Runner, o Opts) {
 			var obs string
 			if len(f) >= 2 && f[1] == "reset" {
 				ctx, obs = rn.Reset(env.Fork(), l)
+			} else if len(f) >= 2 && f[1] == "ghost" {
+				obs = ghost(rn, ctx, l)
 			} else {
 				ctx, obs = rn.Exec(ctx, l)
 			}
@@ -90,9 +114,17 @@ func RunHistories(env *Env, rn Runner, o Opts) {
 			if l == "" {
 				continue
 			}
+			f := strings.Fields(l)
+			if gh, ok := rn.(Ghoster); ok && len(f) >= 2 && f[1] != "export" && f[1] != "reimport" {
+				if num, den := gh.GhostChance(); r.Chance(num, den) {
+					l = f[0] + " ghost " + strings.Join(f[1:], " ")
+					out.Op(l, ghost(rn, ctx, l))
+					out.Count("op.ghost")
+					continue
+				}
+			}
 			ctx, obs = rn.Exec(ctx, l)
 			out.Op(l, obs)
-			f := strings.Fields(l)
 			if len(f) >= 2 {
 				res := strings.SplitN(obs, " ", 2)[0]
 				out.Count("op." + f[1] + "." + res)
